@@ -61,16 +61,17 @@ GraphqFails(e) ==
       SpellAll(p) == LET F[i \in 0..Len(p)] ==
                            IF i = 0 THEN <<>>
                            ELSE IF i = 1 THEN Oriented(p[1])
-                           ELSE LET nx == Oriented(p[i]) IN F[i-1] \o SubSeq(nx, K, Len(nx))
+                           ELSE LET nx == Oriented(p[i]) IN F[i-1] \o Seg(nx, K, Len(nx))
                      IN F[Len(p)]
       \* a path entry <<n, d>>: node n entered through side d; the next edge leaves through the other side
       OutEdges(x) == IF IsPal(x[1] + 1) THEN EdgeSet(x[1] + 1, "L") \cup EdgeSet(x[1] + 1, "R")
                      ELSE EdgeSet(x[1] + 1, Opp(x[2]))
+      PathOK(p) == \A i \in 1..Len(p) : p[i][1] >= 0 /\ p[i][1] < NN /\ p[i][2] \in {"L", "R"}
       IsWalk(p) == \A i \in 1..(Len(p) - 1) :
                      \E t \in OutEdges(p[i]) : t[1] = p[i+1][1] + 1 /\ (t[2] = p[i+1][2] \/ IsPal(p[i+1][1] + 1))
       Overlaps(p) == \A i \in 1..(Len(p) - 1) :
                        LET a == Oriented(p[i])  c == Oriented(p[i+1]) IN
-                       SubSeq(a, Len(a) - K + 2, Len(a)) = SubSeq(c, 1, K - 1)
+                       Seg(a, Len(a) - K + 2, Len(a)) = Seg(c, 1, K - 1)
       KmersSpelled(p) == Kmers(SpellAll(p), K)
       KmersWalked(p) == LET F[i \in 0..Len(p)] == IF i = 0 THEN <<>> ELSE F[i-1] \o Kmers(Oriented(p[i]), K) IN F[Len(p)]
       \* E1: every find_link answer is the abstract lookup
@@ -92,18 +93,18 @@ GraphqFails(e) ==
       \* E5: walks along reported edges spell the walked nodes' k-mers in order
       E5 == \A i \in 1..Len(e.paths) :
               LET p == e.paths[i].p IN
-              IsWalk(p) => /\ Overlaps(p) /\ e.paths[i].s = SpellAll(p)
+              (PathOK(p) /\ IsWalk(p)) => /\ Overlaps(p) /\ e.paths[i].s = SpellAll(p)
                            /\ KmersSpelled(p) = KmersWalked(p)
       \* E6: the best path is such a walk with no node repeated
       E6 == LET p == e.maxpath.p IN
             IF NN = 0 THEN p = <<>>
-            ELSE /\ Len(p) >= 1 /\ IsWalk(p) /\ Overlaps(p) /\ e.maxpath.s = SpellAll(p)
+            ELSE /\ Len(p) >= 1 /\ PathOK(p) /\ IsWalk(p) /\ Overlaps(p) /\ e.maxpath.s = SpellAll(p)
                  /\ KmersSpelled(p) = KmersWalked(p)
                  /\ Cardinality({p[i][1] : i \in 1..Len(p)}) = Len(p)
       \* E8: the beam-search best path is a walk along reported edges, correctly spelled (its Cycle state may repeat the closing node)
       E8 == LET p == e.beam.p IN
             IF NN = 0 THEN p = <<>>
-            ELSE Len(p) >= 1 /\ IsWalk(p) /\ Overlaps(p) /\ e.beam.s = SpellAll(p)
+            ELSE Len(p) >= 1 /\ PathOK(p) /\ IsWalk(p) /\ Overlaps(p) /\ e.beam.s = SpellAll(p)
       \* E7: the table was pruned, so no extension is left dangling
       E7 == \A n \in 1..NN : \A d \in {"L", "R"} : Resolvable(n, d) = BasesOf(nodes[n], d)
   IN {c \in {"E1", "E2", "E3", "E4", "E5", "E6", "E7", "E8"} :
@@ -232,7 +233,7 @@ ExportFails(e) ==
       WellFormedLink(x) == x[1] >= 0 /\ x[1] < NN /\ x[3] >= 0 /\ x[3] < NN /\ x[2] \in {"+", "-"} /\ x[4] \in {"+", "-"}
       GfaLink(x) == Norm(Port(x[1] + 1, IF x[2] = "+" THEN "R" ELSE "L"), Port(x[3] + 1, IF x[4] = "+" THEN "L" ELSE "R"))
       Lines == 1..Len(e.links)
-      Count(lk) == Cardinality({i \in Lines : GfaLink(e.links[i]) = lk})
+      Count(lk) == Cardinality({i \in Lines : WellFormedLink(e.links[i]) /\ GfaLink(e.links[i]) = lk})
       TouchPal(lk) == IsPal(lk[1][1]) \/ IsPal(lk[2][1])
       REdges == UNION {{<<u - 1, t[1] - 1, t[2]>> : t \in EdgeSetOf(K, st, nodes, u, "R")} : u \in 1..NN}
       JT(x) == <<x[1], x[2], x[3]>>
